@@ -62,11 +62,24 @@ def strip_comments(text):
 # ------------------------------------------------------------------ build steps
 
 def coq_files():
-    proj = open(os.path.join(COQ, "_CoqProject")).read().split("\n")
-    return [l.strip() for l in proj if l.strip().endswith(".v")]
+    """every .v under theories/ except the extraction scripts (compiled apart, they write files)"""
+    res = []
+    for root, _, files in os.walk(THEORIES):
+        for f in files:
+            if f.endswith(".v") and os.path.basename(root) != "Extract":
+                res.append(os.path.relpath(os.path.join(root, f), COQ))
+    return sorted(res)
+
+
+def write_coqproject():
+    text = "-Q theories Biscuit\n" + "\n".join(coq_files()) + "\n"
+    p = os.path.join(COQ, "_CoqProject")
+    if not os.path.exists(p) or open(p).read() != text:
+        open(p, "w").write(text)
 
 
 def build_coq(target=None):
+    write_coqproject()
     if not os.path.exists(os.path.join(COQ, "Makefile")) or \
        os.path.getmtime(os.path.join(COQ, "Makefile")) < os.path.getmtime(os.path.join(COQ, "_CoqProject")):
         rc, out = sh("coq_makefile -f _CoqProject -o Makefile", cwd=COQ)
@@ -79,23 +92,39 @@ def build_coq(target=None):
     return out
 
 
-def build_extracted():
-    """Re-extract and recompile the OCaml model when any model .vo is newer."""
+def extract_units():
+    return sorted(os.path.basename(f)[len("Extract"):-2].lower()
+                  for f in glob.glob(os.path.join(THEORIES, "Extract", "Extract*.v")))
+
+
+def build_extracted(name):
+    """Re-extract and recompile the OCaml model unit `name` (Extract/Extract<Name>.v ->
+    model_<name>.ml) when any model .vo is newer."""
     os.makedirs(EXTRACTED, exist_ok=True)
-    src = os.path.join(THEORIES, "Extract", "Extract.v")
-    cmx = os.path.join(EXTRACTED, "biscuit_model.cmx")
+    srcs = [f for f in glob.glob(os.path.join(THEORIES, "Extract", "Extract*.v"))
+            if os.path.basename(f)[len("Extract"):-2].lower() == name]
+    if not srcs:
+        raise CheckBroken("extraction", "no Extract/Extract%s.v" % name.capitalize())
+    src = srcs[0]
+    cmx = os.path.join(EXTRACTED, "model_%s.cmx" % name)
+    pcmx = os.path.join(EXTRACTED, "prelude_%s.cmx" % name)
     newest = max([os.path.getmtime(f) for f in glob.glob(os.path.join(THEORIES, "Model", "*.vo"))] +
                  [os.path.getmtime(src), os.path.getmtime(os.path.join(COQ, "driver", "prelude.ml"))])
-    if os.path.exists(cmx) and os.path.getmtime(cmx) >= newest and \
-       os.path.exists(os.path.join(EXTRACTED, "prelude.cmx")):
+    if os.path.exists(cmx) and os.path.exists(pcmx) and min(os.path.getmtime(cmx), os.path.getmtime(pcmx)) >= newest:
         return
     rc, out = sh("timeout 600 coqc -Q %s Biscuit %s" % (THEORIES, src), cwd=EXTRACTED)
+    for ext in ("o", "ok", "os"):
+        try:
+            os.remove(src + ext)
+        except OSError:
+            pass
+    if rc != 0 or not os.path.exists(os.path.join(EXTRACTED, "model_%s.ml" % name)):
+        raise CheckBroken("extraction of %s" % name, out[-3000:])
+    pre = open(os.path.join(COQ, "driver", "prelude.ml")).read().replace("MODEL_MODULE", "Model_%s" % name)
+    open(os.path.join(EXTRACTED, "prelude_%s.ml" % name), "w").write(pre)
+    rc, out = sh("ocamlfind ocamlopt -w -a -c model_%s.mli model_%s.ml prelude_%s.ml" % (name, name, name), cwd=EXTRACTED)
     if rc != 0:
-        raise CheckBroken("extraction", out[-3000:])
-    shutil.copy(os.path.join(COQ, "driver", "prelude.ml"), os.path.join(EXTRACTED, "prelude.ml"))
-    rc, out = sh("ocamlfind ocamlopt -w -a -c biscuit_model.mli biscuit_model.ml prelude.ml", cwd=EXTRACTED)
-    if rc != 0:
-        raise CheckBroken("ocaml build of the extracted model", out[-3000:])
+        raise CheckBroken("ocaml build of the extracted model %s" % name, out[-3000:])
 
 
 def build_harness(bins=None, profile="release"):
@@ -113,7 +142,8 @@ def build_harness(bins=None, profile="release"):
 def setup():
     t = time.time()
     build_coq()
-    build_extracted()
+    for u in extract_units():
+        build_extracted(u)
     build_harness()
     print("setup done in %.0fs" % (time.time() - t))
     return 0
@@ -231,16 +261,16 @@ def obligations(ctx):
 
 # ------------------------------------------------------------------ model runners
 
-def run_ocaml_shards(ml_files, what):
-    """Compiles each generated case file against the extracted model and runs it.
+def run_ocaml_shards(ml_files, what, unit):
+    """Compiles each generated case file against the extracted model unit and runs it.
     Returns (bad_indices, skipped)."""
-    build_extracted()
+    build_extracted(unit)
 
     def one(ml):
         exe = ml[:-3] + ".exe"
         d = os.path.dirname(ml)
-        rc, out = sh("ocamlfind ocamlopt -w -a -I %s %s/biscuit_model.cmx %s/prelude.cmx %s -o %s" %
-                     (EXTRACTED, EXTRACTED, EXTRACTED, os.path.basename(ml), os.path.basename(exe)),
+        rc, out = sh("ocamlfind ocamlopt -w -a -I %s %s/model_%s.cmx %s/prelude_%s.cmx %s -o %s" %
+                     (EXTRACTED, EXTRACTED, unit, EXTRACTED, unit, os.path.basename(ml), os.path.basename(exe)),
                      cwd=d, timeout=1800)
         if rc != 0:
             return ("compile", ml, out[-2000:])
